@@ -513,10 +513,10 @@ impl<'de, R: Read<'de>> Parser<R> {
                         self.expect_ident(b"8")?;
                         Token::ByteVecOpen(b')')
                     }
-                    Some(b'b') => Token::Number(self.parse_radix_literal(2)?),
-                    Some(b'o') => Token::Number(self.parse_radix_literal(8)?),
-                    Some(b'd') => Token::Number(self.parse_radix_literal(10)?),
-                    Some(b'x') => Token::Number(self.parse_radix_literal(16)?),
+                    Some(b'b') => Token::Number(self.parse_radix_token(2)?),
+                    Some(b'o') => Token::Number(self.parse_radix_token(8)?),
+                    Some(b'd') => Token::Number(self.parse_radix_token(10)?),
+                    Some(b'x') => Token::Number(self.parse_radix_token(16)?),
                     Some(b'\\') => Token::Char(self.read.parse_r6rs_char(&mut self.scratch)?),
                     Some(b'%') if self.options.racket_hash_percent_symbols => {
                         Token::Symbol(self.parse_symbol_suffix("#%")?.into())
@@ -531,7 +531,7 @@ impl<'de, R: Read<'de>> Parser<R> {
                 if next == 0 || is_delimiter(next) || is_sign_subsequent(next) {
                     Token::Symbol(self.parse_symbol_suffix("-")?.into())
                 } else {
-                    Token::Number(self.parse_num_literal(10, false)?)
+                    Token::Number(self.parse_num_token(false)?)
                 }
             }
             b'+' => {
@@ -540,19 +540,20 @@ impl<'de, R: Read<'de>> Parser<R> {
                 if next == 0 || is_delimiter(next) || is_sign_subsequent(next) {
                     Token::Symbol(self.parse_symbol_suffix("+")?.into())
                 } else {
-                    Token::Number(self.parse_num_literal(10, true)?)
+                    Token::Number(self.parse_num_token(true)?)
                 }
             }
             b'0'..=b'9' => {
                 if self.options.leading_digit_symbols {
                     let symbol = self.parse_symbol()?;
                     let mut num_parser = Parser::from_slice_custom(symbol.as_bytes(), self.options);
+                    // Only a token that is a numeric literal as a whole is a number.
                     match num_parser.parse_num_literal(10, true) {
-                        Ok(token) => Token::Number(token),
-                        Err(_) => Token::Symbol(symbol.into()),
+                        Ok(token) if num_parser.peek()?.is_none() => Token::Number(token),
+                        _ => Token::Symbol(symbol.into()),
                     }
                 } else {
-                    Token::Number(self.parse_num_literal(10, true)?)
+                    Token::Number(self.parse_num_token(true)?)
                 }
             }
             b'"' => {
@@ -882,7 +883,8 @@ impl<'de, R: Read<'de>> Parser<R> {
                         break;
                     } else {
                         let n = self
-                            .parse_number()?
+                            .parse_number()
+                            .and_then(|n| self.expect_number_end(n))?
                             .as_u64()
                             .ok_or_else(|| self.peek_error(ErrorCode::ExpectedOctet))?;
                         if n > 255 {
@@ -1064,6 +1066,24 @@ impl<'de, R: Read<'de>> Parser<R> {
                 Ok(None) => return Err(self.peek_error(ErrorCode::EofWhileParsingVector)),
             }
         }
+    }
+
+    // A numeric literal extends up to the next delimiter or the end of input.
+    fn expect_number_end(&mut self, number: Number) -> Result<Number> {
+        match self.peek()? {
+            Some(c) if !is_delimiter(c) => Err(self.peek_error(ErrorCode::InvalidNumber)),
+            _ => Ok(number),
+        }
+    }
+
+    fn parse_num_token(&mut self, pos: bool) -> Result<Number> {
+        let number = self.parse_num_literal(10, pos)?;
+        self.expect_number_end(number)
+    }
+
+    fn parse_radix_token(&mut self, radix: u8) -> Result<Number> {
+        let number = self.parse_radix_literal(radix)?;
+        self.expect_number_end(number)
     }
 
     // Parses a full numeric literal, including a potential radix prefix
